@@ -457,7 +457,28 @@ func runOne4(c *CfgCase, h handler.Handler4, wire []byte, i int) (v *core.Violat
 	if b2 := back.ToBytes(); !bytes.Equal(b1, b2) {
 		return core.Violate("C19/"+c.Plugin+"/v4/reply-options-change", "args %q accepted by setup; request #%d: re-serialising the parsed reply gives different bytes", c.Args, i)
 	}
+	if c.Plugin == "searchdomains" {
+		// the DHCPv4 reply object holds bytes only: what "the same options" means for a name list is
+		// the list that was accepted at start-up, read back with the harness's own decoder
+		if raw, ok := back.Options[119]; ok {
+			if names, dok := gen.DecodeNames(raw); !dok || !sameStrings(names, c.Args) {
+				return core.Violate("C19/"+c.Plugin+"/v4/reply-options-change", "args %q accepted by setup; request #%d: the search list in the reply reads back as %q", c.Args, i, names)
+			}
+		}
+	}
 	return nil
+}
+
+func sameStrings(a, b []string) bool {
+	if len(a) != len(b) {
+		return false
+	}
+	for i := range a {
+		if a[i] != b[i] {
+			return false
+		}
+	}
+	return true
 }
 
 func runOne6(c *CfgCase, h handler.Handler6, wire []byte, i int) (v *core.Violation) {
@@ -504,6 +525,17 @@ func runOne6(c *CfgCase, h handler.Handler6, wire []byte, i int) (v *core.Violat
 	}
 	if b2 := back.ToBytes(); !bytes.Equal(b1, b2) {
 		return core.Violate("C19/"+c.Plugin+"/v6/reply-options-change", "args %q accepted by setup; request #%d: re-serialising the parsed reply gives different bytes", c.Args, i)
+	}
+	if c.Plugin == "searchdomains" {
+		for _, o := range bm.Options.Options {
+			if o.Code() != dhcpv6.OptionDomainSearchList {
+				continue
+			}
+			raw := o.ToBytes()
+			if names, dok := gen.DecodeNames(raw); !dok || !sameStrings(names, c.Args) {
+				return core.Violate("C19/"+c.Plugin+"/v6/reply-options-change", "args %q accepted by setup; request #%d: the search list in the reply reads back as %q", c.Args, i, names)
+			}
+		}
 	}
 	return nil
 }
